@@ -1,6 +1,10 @@
 package c02
 
-import "strings"
+import (
+	"strings"
+
+	"golang.org/x/text/encoding/simplifiedchinese"
+)
 
 // The case space: entry names (token sequences), archive shapes, destinations, backends, limits modes.
 // Every case has a global index (its position in the fixed enumeration order below); shard k of n runs
@@ -262,6 +266,20 @@ func space(thorough bool) ([]*block, bound) {
 		[]byte("../i/o timeout"),
 		[]byte("a/../../not supported/x"),
 		[]byte("../bad file descriptor"),
+	}
+	// names in a legacy double-byte encoding (GBK) with enough ordinary text for the detector to have no doubt, in which the
+	// parent reference is spelt with that encoding's FULL-WIDTH full stop and solidus (A3AE A3AE A3AF): harmless as bytes and
+	// harmless once transcoded ("．．／name" is one path element) — unless somebody folds compatibility characters afterwards
+	chinese := "使用说明和参数的中文文档我们这个是一个不在有人"
+	for _, n := range []string{"．．／" + chinese + ".txt", "．．／．．／" + chinese + ".txt", chinese + "／．．／．．／．．／" + chinese, "‥／" + chinese + ".txt"} {
+		if raw, err := simplifiedchinese.GBK.NewEncoder().String(n); err == nil {
+			extras = append(extras, []byte(raw))
+		}
+	}
+	if raw, err := simplifiedchinese.GBK.NewEncoder().String("．．"); err == nil {
+		if tail, err := simplifiedchinese.GBK.NewEncoder().String(chinese + ".txt"); err == nil {
+			extras = append(extras, []byte(raw+"/"+tail), []byte(raw+"/"+raw+"/"+tail))
+		}
 	}
 	blocks := []*block{
 		{id: "all-forms", names: allFormsNames, shapes: mainShapes, targets: product(all, "os", "mem"), destExists: true, limits: none},
